@@ -13,9 +13,9 @@ def run(tier, rep, work):
     exe = C.build_harness()
     n = 40 if quick else 400
     # no compaction in these histories (threshold out of reach): (add* [Flush])* Close; reopen with fresh templates, several sessions
-    storefam.run_store(rep, work, d, exe, "C09", tier, "sessions/memcap1", 0, n, memcap=1, compactn=50, seed=10, steps=30, density=0.3, allow=("C08-D1m-shared-templates",))
+    storefam.run_store(rep, work, d, exe, "C09", tier, "sessions/memcap1", 0, n, memcap=1, compactn=50, seed=10, steps=30, density=0.3, bulk=6000, allow=("C08-D1m-shared-templates",))
     storefam.run_store(rep, work, d, exe, "C09", tier, "sessions/memcap3", 1, n, memcap=3, compactn=50, seed=11, steps=36, density=0.3, allow=("C08-D1m-shared-templates",))
-    storefam.run_store(rep, work, d, exe, "C09", tier, "sessions/vector+text", 2, n // 2, memcap=2, compactn=50, comps="vt", seed=12, steps=30, allow=("C08-D1m-shared-templates",))
+    storefam.run_store(rep, work, d, exe, "C09", tier, "sessions/vector+text", 2, n // 2, memcap=2, compactn=50, comps="vt", seed=12, steps=30, bulk=5000, allow=("C08-D1m-shared-templates",))
     storefam.run_store(rep, work, d, exe, "C09", tier, "sessions/vector-only", 3, n // 2, memcap=1, compactn=50, comps="v", seed=13, steps=30, allow=("C08-D1m-shared-templates",))
     storefam.run_store(rep, work, d, exe, "C09", tier, "sessions/trained-ivf template", 4, n // 2, memcap=2, compactn=50, seed=14, steps=30, vec="ivf", allow=("C08-D1m-shared-templates",))
     storefam.run_store(rep, work, d, exe, "C09", tier, "sessions/hnsw template", 5, n // 2, memcap=1, compactn=50, seed=15, steps=30, vec="hnsw", allow=("C08-D1m-shared-templates",))
@@ -24,6 +24,7 @@ def run(tier, rep, work):
     rep.cov["rule"] = ("Histories of add / remove / Flush / background flush / rotation / search with close-and-reopen (fresh templates every time) several times per history and a final reopen; "
                        "memtables of 1-3 documents; templates vector+text+metadata, vector+text, vector only (flat), trained IVF (re-trained after every open, every cluster probed) and HNSW (2M above the document count) with text and metadata; no compaction. After every reopen the documents acknowledged by a completed Flush or Close must be found "
                        "through a vector, a text and a metadata query; every new segment identifier must lie above every identifier handed out before and every identifier present in the directory (logged at the hook); "
+                       "one segment of 5 000-6 000 documents is written by Flush + Close and read back by a fresh session (every document found); directory names contain glob / shell metacharacters; "
                        "the hook-level trace must be a behaviour of Store.tla (counter initialised from all component names, segments listed by hybrid file). Non-trivial = has a durable write and a later search; distinct by hash.")
     rep.cov["trusted_base"] = ["TLC", "hook placement", "directory listing taken inside the flush.id hook"]
     rep.cov["not_explored"] = ["a second operating-system process", "partial probes on the ivf template (all clusters are probed so that the visible set is observable exactly)"]
